@@ -407,6 +407,53 @@ def run(ctx, prog, res):
                      "%s passes the first day of a following month as an (inclusive) end bound: the interval helpers report the change one day late (%s)" % (f.id, sh[:160]), lib.where_of(f, t))
     r6.floor(3)
 
+    # R11 ------------------------------------------------------------------------------------
+    r11 = res.rule("C02.R11", "a hint computed from bounds that were only generated for a finite window of years (`year-1 ..= year+k`, not through DATE_END) says nothing about what follows the window - a bound with a year further away, an interval whose end was not generated: the value of `next_change_from_*` on such a sequence is returned only as the minimum with a date built from `year(date) + k'`, k' <= k (the hint never promises more than the window it looked at)")
+    MINC = re.compile(r"(^core::cmp::min$|core::cmp::Ord::min$)")
+    n_fin = 0
+    for hnt in [f for f in prog.fns.values() if f.crate == lib.OH and f.impl and (f.impl.get("trait") or "").endswith("DateFilter") and f.name == "next_change_hint"]:
+        for hbb, h in hnt.calls():
+            if not re.match(re.escape(DFM) + r"next_change_from_(bounds|intervals)", flow.call_name(h)):
+                continue
+            ks = []
+            for a in h["args"][1:]:
+                src, stages = pipeline(hnt, a)
+                if not stages:
+                    continue
+                hz = horizon(src)
+                if hz is None:
+                    ks.append(None)
+                elif hz[1] < 10 ** 6:
+                    ks.append(hz[1])
+            if not ks:
+                continue  # explicit bounds, or a sequence generated through DATE_END
+            n_fin += 1
+            tname = hnt.impl.get("self", "").split("::")[-1]
+            if None in ks:
+                r11.fail("C02.R11:%s:unmodelled" % tname, "%s: the window of a generated sequence of bounds is not of the form lo..=year(date)+k / ..=year(DATE_END): not decided, failing closed" % tname, lib.where_of(hnt, h))
+                continue
+            k = min(ks)
+            dst = h.get("dst")
+            capped = None
+            for mbb, m in hnt.calls():
+                if not any(MINC.search(n) for n in flow.call_names(m)) or len(m["args"]) != 2:
+                    continue
+                sides = [flow.origin_calls(hnt, x) for x in m["args"]]
+                for i in (0, 1):
+                    if any(c is h for c in sides[i]) and len(sides[i]) == 1:
+                        other = flow.shape(hnt, m["args"][1 - i], depth=12)
+                        mm = re.search(r"from_ymd_opt\((?:Add\(::year\(p2\), (\d+)\)\.0|::year\(p2\))", other)
+                        if mm and int(mm.group(1) or 0) <= k and hnt.dominates(hbb, mbb):
+                            capped = (m, int(mm.group(1) or 0), mbb)
+            ok = False
+            if capped is not None:
+                # the un-capped value must not reach the return by another way
+                rets = flow.origin_calls(hnt, 0)
+                ok = not any(c is h for c in rets)
+            r11.check(ok, {"selector": tname, "window": "year-1 ..= year+%d" % k, "hint_capped_at": ("Jan 1 of year+%d" % capped[1]) if capped else None}, "C02.R11:%s" % tname,
+                      "%s: the hint is computed from bounds generated up to year+%d only and is returned without a cap at the end of that window: a bound with a year further away (or an interval whose end lies beyond the window) is skipped - next_change reports none / a later change although the filter changes its answer" % (tname, k), lib.where_of(hnt, h))
+    r11.floor(1)
+
     # R7 -------------------------------------------------------------------------------------
     r7 = res.rule("C02.R7", "the skip hint looks at every day the day's schedule depends on: the schedule of a day consults each rule's day selector for that day and for the day before (yesterday's spill past midnight); the hint may only skip ahead for a rule after consulting the day selector for the same set of days")
     DFT = "opening_hours::filter::date_filter::DateFilter"
